@@ -1,6 +1,6 @@
 (* Property C07 -- an EQL query translated to SQL selects the same entities as in-memory evaluation.
    Only statements, each closed by [exact].  Model: Orm/EqlToSql.v (translator, tree after the C07 fix: commits
-   5ffa83c f1c6930 6b20ce1 6e7d0db 7e47af0 f599ad3) over Orm/SqlAlg.v (what the statement means on SQLite --
+   5ffa83c f1c6930 6b20ce1 6e7d0db 7e47af0 f599ad3 20777ed 24ba119 c0600cf) over Orm/SqlAlg.v (what the statement means on SQLite --
    compared, not proved); Spec: Orm/EqlToSqlSpec.v ([answers]).  Level: partial. *)
 From Coq Require Import List ZArith Bool.
 From Krrood Require Import Base.Sx Orm.EqlToSqlSpec Orm.SqlAlg Orm.EqlToSql Orm.EqlToSqlProofs.
@@ -8,7 +8,10 @@ Import ListNotations.
 Open Scope Z_scope.
 
 (* for every schema, every query accepted by the translator, every world (database content): inside F07 the rows the
-   statement returns are the rows in-memory evaluation returns -- same keys, same multiplicities, same order *)
+   statement returns are the rows in-memory evaluation returns -- same keys, same multiplicities, same order.
+   F07: one variable; ==, != (also against None and between None-valued columns), <, <=, >, >= between non-None values of
+   one kind, in_ of a possibly-None column in a list of scalars, a possibly-None column as condition, and_, or_; chains
+   follow to-one references that are never None and end in a scalar column *)
 Theorem C07_agree : forall sc q w s,
   translate sc q = TOk s -> f07 sc q w = true -> sem_res s (encode sc w) = answers sc q w.
 Proof. exact agree. Qed.
@@ -49,39 +52,46 @@ Theorem C07_rejects_selfjoin : forall sc q v1 ch1 v2 ch2 root a1 a2 t1 t2,
 Proof. exact rejects_selfjoin. Qed.
 (* (5) <, <=, >, >= against the literal None is never answered (was C07-f) *)
 Theorem C07_rejects_none_order : forall sc q op v ch,
-  q_cond q = Some (CCmp op (OAttr v ch) (OLit VNull)) -> is_eqne op = false -> forall s, translate sc q <> TOk s.
+  q_cond q = Some (CCmp op (OAttr v ch) (OLit VNull)) -> eqne op = false -> forall s, translate sc q <> TOk s.
 Proof. exact rejects_none_order. Qed.
 
 (* outside F07 the faithful model does NOT meet the property; one witness per open class *)
-Theorem C07_refuted_null :         (* None: NULL comparison drops the row; Python: None != 1 holds, None < 0 raises *)
-  (model_res Wit.sc Wit.q_null_ne Wit.w = Some (Ok []) /\ answers Wit.sc Wit.q_null_ne Wit.w = Ok [3]) /\
-  (model_res Wit.sc Wit.q_null_lt Wit.w = Some (Ok []) /\ answers Wit.sc Wit.q_null_lt Wit.w = Err TypeErr).
+Theorem C07_refuted_null :         (* ordering against a None value: Python raises TypeError, SQL drops the row -- the(...) fails in memory only *)
+  (model_res Wit.sc Wit.q_null_lt Wit.w = Some (Ok []) /\ answers Wit.sc Wit.q_null_lt Wit.w = Err TypeErr) /\
+  (option_map one_of (model_res Wit.sc Wit.q_null_lt_the Wit.w) = Some (OneValue 4) /\
+   one_of (answers Wit.sc Wit.q_null_lt_the Wit.w) = OneFailed).
 Proof. exact refuted_null. Qed.
-Theorem C07_refuted_strtruth :     (* a str column used as condition: WHERE name is false for 'Body1', bool('Body1') is True *)
-  model_res Wit.sc Wit.q_strtruth Wit.w = Some (Ok []) /\ answers Wit.sc Wit.q_strtruth Wit.w = Ok [7; 8; 9].
-Proof. exact refuted_strtruth. Qed.
-Theorem C07_refuted_eqjoin_twice : (* the second equality join onto an already joined table is dropped silently *)
-  model_res Wit.sc Wit.q_eqjoin_twice Wit.w = model_res Wit.sc Wit.q_eqjoin_once Wit.w /\
-  model_res Wit.sc Wit.q_eqjoin_twice Wit.w = Some (Ok [10; 11]) /\ answers Wit.sc Wit.q_eqjoin_twice Wit.w = Ok [11].
-Proof. exact refuted_eqjoin_twice. Qed.
 Theorem C07_refuted_valueeq :      (* related entities are compared by foreign key (identity), Python compares by __eq__ (value) *)
   model_res Wit.sc Wit.q_valueeq Wit.w = Some (Ok []) /\ answers Wit.sc Wit.q_valueeq Wit.w = Ok [10].
 Proof. exact refuted_valueeq. Qed.
 
-(* regression: the witnesses of the repaired classes C07-a, -c, -e, -f, -g are rejected, C07-d agrees *)
+(* regression: the witnesses of the repaired classes: C07-a, -c, -e, -f, -g are rejected; C07-d (substring), C07-b (!= with None),
+   C07-h (str column as condition), C07-i (two equality joins onto one table) agree *)
 Example C07_fixed_witnesses :
   translate Wit.sc Wit.q_othervar = TReject /\ translate Wit.sc Wit.q_fk = TReject /\
   translate Wit.sc Wit.q_varop = TReject /\ translate Wit.sc Wit.q_noneorder = TReject /\
   translate Wit.sc Wit.q_selfjoin = TReject /\
   (model_res Wit.sc Wit.q_like Wit.w = Some (Ok []) /\ answers Wit.sc Wit.q_like Wit.w = Ok []) /\
-  (model_res Wit.sc Wit.q_like2 Wit.w = Some (Ok [7; 8]) /\ answers Wit.sc Wit.q_like2 Wit.w = Ok [7; 8]).
+  (model_res Wit.sc Wit.q_like2 Wit.w = Some (Ok [7; 8]) /\ answers Wit.sc Wit.q_like2 Wit.w = Ok [7; 8]) /\
+  (model_res Wit.sc Wit.q_null_ne Wit.w = Some (Ok [3]) /\ answers Wit.sc Wit.q_null_ne Wit.w = Ok [3]) /\
+  (model_res Wit.sc Wit.q_strtruth Wit.w = Some (Ok [7; 8; 9]) /\ answers Wit.sc Wit.q_strtruth Wit.w = Ok [7; 8; 9]) /\
+  (model_res Wit.sc Wit.q_eqjoin_twice Wit.w = Some (Ok [11]) /\ answers Wit.sc Wit.q_eqjoin_twice Wit.w = Ok [11]) /\
+  (model_res Wit.sc Wit.q_eqjoin_once Wit.w = Some (Ok [10; 11]) /\ answers Wit.sc Wit.q_eqjoin_once Wit.w = Ok [10; 11]).
 Proof. exact fixed_witnesses. Qed.
 
-(* non-vacuity: a query with two relationship paths, and/or and an attribute-attribute comparison is in F07, accepted, non-trivial *)
+(* non-vacuity: a query with two relationship paths, and/or and an attribute-attribute comparison is in F07, accepted, non-trivial;
+   so are queries over a None-valued column (!=, == None, bare column, in_), while an ordering on it is outside *)
 Example C07_nonvacuous :
   f07 Wit.sc Wit.q_ok Wit.w_ok = true /\ model_res Wit.sc Wit.q_ok Wit.w_ok = Some (Ok [5]) /\
   answers Wit.sc Wit.q_ok Wit.w_ok = Ok [5].
 Proof. exact nonvacuous. Qed.
+Example C07_nonvacuous_null :
+  f07 Wit.sc Wit.q_null_mix Wit.w = true /\ model_res Wit.sc Wit.q_null_mix Wit.w = Some (Ok [3; 4]) /\
+  answers Wit.sc Wit.q_null_mix Wit.w = Ok [3; 4] /\
+  f07 Wit.sc Wit.q_is_none Wit.w = true /\ model_res Wit.sc Wit.q_is_none Wit.w = Some (Ok [3]) /\
+  f07 Wit.sc Wit.q_null_ne Wit.w = true /\ f07 Wit.sc Wit.q_strtruth Wit.w = true /\
+  f07 Wit.sc Wit.q_null_lt Wit.w = false.
+Proof. exact nonvacuous_null. Qed.
 
 Print Assumptions C07_agree.
 Print Assumptions C07_the.
@@ -94,6 +104,4 @@ Print Assumptions C07_rejects_rel_in_list.
 Print Assumptions C07_rejects_selfjoin.
 Print Assumptions C07_rejects_none_order.
 Print Assumptions C07_refuted_null.
-Print Assumptions C07_refuted_strtruth.
-Print Assumptions C07_refuted_eqjoin_twice.
 Print Assumptions C07_refuted_valueeq.
